@@ -228,6 +228,7 @@ def run(ctx: Ctx):
                     ctx.fail("FX-MODSTATE", fi, f"@{dn}", "memoisation keyed by argument equality conflates 1, 1.0 and True", fi.node)
     ctx.ok("FX-MODSTATE", None, "types package keeps no module-level state", f"{n} summaries scanned", construct="types")
     ctx.section(check_modmask, ctx)
+    ctx.section(check_exact, ctx)
 
 
 def need(ci: ClassInfo, name: str) -> FuncInfo:
@@ -576,3 +577,45 @@ def check_modmask(ctx: Ctx):
             n += 1
             ctx.fail("SB-MODMASK", fi, f"`{norm(site)[:50]}`", f"`{norm(site)}` reduces a value with the all-ones mask as MODULUS: the largest value of that width ((1 << n) - 1) becomes 0; the modulus for n bits is 2**n (or use `& mask`)", site)
     ctx.ok("SB-MODMASK", None, "no value is reduced modulo an all-ones mask", f"{n} sites", construct="types")
+
+
+_ROUNDERS = {"round", "floor", "ceil", "trunc", "rint", "around", "quantize", "fix"}
+
+
+def check_exact(ctx: Ctx):
+    """OR-EXACT: encode and decode are inverse on every pattern only if the encoder reads the value exactly.  A
+    fixed-point pattern with k fractional bits is a multiple of 2**-k, whose decimal expansion has exactly k digits:
+    rounding to n < k decimals moves it to a neighbouring (or no) grid point.  k is read from the shipped types."""
+    repo = ctx.repo
+    fx = repo.cls("types.qfixed.QfixedImp")
+    fracs = {}
+    for c in [fx] + repo.subclasses(fx):
+        e = c.consts.get("BIT_SIZE_FRACTIONAL")
+        if isinstance(e, ast.Constant) and isinstance(e.value, int):
+            fracs[c.name] = e.value
+    if len(fracs) < 3:
+        raise AnchorError("types.qfixed", f"only {len(fracs)} fixed-point types with a literal BIT_SIZE_FRACTIONAL found")
+    kmax = max(fracs.values())
+    kname = sorted(n for n, k in fracs.items() if k == kmax)[0]
+    scanned = 0
+    hits = 0
+    for fi in repo.functions.values():
+        if fi.module is None or not (fi.short.startswith("types.qfixed.") or fi.short.startswith("types.qtype.") or fi.short == "types.const_to_qtype"):
+            continue
+        scanned += 1
+        for c in q.calls(fi.node):
+            fn = c.func
+            nm = fn.id if isinstance(fn, ast.Name) else (fn.attr if isinstance(fn, ast.Attribute) else None)
+            if nm not in _ROUNDERS or not c.args:
+                continue
+            hits += 1
+            role = "the encoder reads the value exactly (no rounding coarser than the finest fractional bit)"
+            digits = c.args[1] if len(c.args) > 1 else next((k.value for k in c.keywords if k.arg in ("ndigits", "decimals")), None)
+            scaled = any(isinstance(n, ast.BinOp) and isinstance(n.op, (ast.Mult, ast.LShift, ast.Pow)) for n in ast.walk(c.args[0]))
+            if nm == "round" and isinstance(digits, ast.Constant) and isinstance(digits.value, int):
+                ctx.check(digits.value >= kmax, "OR-EXACT", fi, role, f"round to {digits.value} decimals, finest type has {kmax} fractional bits", f"`{norm(c)[:60]}` keeps {digits.value} decimals, but {kname} has {kmax} fractional bits and 2**-{kmax} = {2.0 ** -kmax} needs {kmax}: patterns with the last fractional bit set are re-encoded as a different pattern", c)
+            elif digits is None and not scaled:
+                ctx.fail("OR-EXACT", fi, role, f"`{norm(c)[:60]}` discards the fractional part of the value before the bits are extracted", c)
+            else:
+                ctx.undecided(fi.short, f"OR-EXACT [{role}]: `{norm(c)[:60]}` rounds a scaled or variably-rounded value ({fi.loc(c)})")
+    ctx.ok("OR-EXACT", None, "fixed-point codecs read the value exactly", f"{scanned} functions of types.qfixed / types.qtype / const_to_qtype scanned, {hits} rounding calls; finest type {kname} ({kmax} fractional bits)", construct="types.qfixed")
